@@ -290,6 +290,10 @@ class Canon:
             src = copy_source(e, order=True)
             if src is not None:
                 return self.p(src, frame, d, seen)
+            if frame is not None:
+                ts = {self.class_name(t) for t in self.repo.expr_types(e, frame.func)}
+                if len(ts) == 1 and next(iter(ts)) in SINGLETONS:
+                    return next(iter(ts))
             base = self.p(e.value, frame, d, seen)
             if isinstance(e.slice, ast.Slice):
                 key = ':'.join(self.p(x, frame, d, seen) if x is not None else ''
